@@ -136,6 +136,39 @@ def sf_modpow_reduce(E, st, args, kw):
     return val(st, mk_bool(t))
 
 
+# ---------------------------------------------------------------- proved lemmas (Dafny style)
+#
+# A lemma is a spec function  spec.<module>.lemma_<name>(args)  whose body is `return True` and whose Contract
+# (requires ==> ensures, over integers / bytes) is VERIFIED like any other target, in its own small context, by a registered
+# unit.  `lemma("<module>.<name>", args...)` in a clause denotes the instance  /\ requires(args) ==> /\ ensures(args)  and
+# records it as a fact: sound because the universally quantified statement is proved by the lemma's own unit
+# (LEMMA_TARGETS lists them; every area that uses a lemma registers lemma_units()).
+
+def sf_lemma(E, st, args, kw):
+    from vf.pyvc.contracts import eval_clause, _spec_frame, _as_z3
+    name = args[0]
+    q = 'spec.' + name.replace('.', '.lemma_', 1) if '.lemma_' not in name else 'spec.' + name
+    c = E.registry.contracts.get(q)
+    if c is None or c.assumed:
+        raise Unsupported('lemma %s is not a registered, proved contract' % q)
+    fi = loader.find_function(q)
+    names = [a.arg for a in fi.node.args.args]
+    if len(names) != len(args) - 1:
+        raise Unsupported('lemma %s expects %d arguments' % (q, len(names)))
+    s0 = st.fork()
+    s0.frames.append(_spec_frame(s0, dict(zip(names, args[1:])), fi.module))
+    s0.snap = None
+    req = [_as_z3(eval_clause(E, cl, s0)) for cl in c.requires]
+    ens = [_as_z3(eval_clause(E, cl, s0)) for cl in c.ensures.values()]
+    for t in s0.pc[len(st.pc):]:
+        if t.get_id() in s0.facts:
+            st.fact(t)
+    inst = z3.Implies(z3.And(req) if req else z3.BoolVal(True), z3.And(ens))
+    st.fact(inst)
+    E.registry.used.add(q)
+    return val(st, mk_bool(inst))
+
+
 # ---------------------------------------------------------------- entropy tapes
 
 def sys_tape(E, st):
@@ -189,7 +222,7 @@ def sf_kwarg(E, st, args, kw):
 
 FORMS = {'ival': sf_ival, 'ipow': sf_ipow, 'modpow': sf_modpow, 'modinv': sf_modinv, 'gcd': sf_gcd, 'bitlen': sf_bitlen,
          'bitand': sf_bitand, 'bitor': sf_bitor, 'be_cat': sf_be_cat, 'be_lt': sf_be_lt, 'modpow_reduce': sf_modpow_reduce, 'pow2_add': sf_pow2_add,
-         'systape': sf_systape, 'tape_of': sf_tape_of, 'tape': sf_tape, 'kwarg': sf_kwarg}
+         'lemma': sf_lemma, 'systape': sf_systape, 'tape_of': sf_tape_of, 'tape': sf_tape, 'kwarg': sf_kwarg}
 for _nm, _fn in FORMS.items():
     interp.SPEC_BUILTINS.setdefault(_nm, BuiltinV('spec.' + _nm, _fn))
 
@@ -222,6 +255,28 @@ def add_entropy_model(reg):
     reg.overrides['os.urandom'] = BuiltinV('os.urandom', m_urandom)
     reg.models['Crypto.Random.new'] = m_random_new
     return reg
+
+
+# ---------------------------------------------------------------- the lemma library (spec/integer.py: lemma_*)
+
+def add_lemmas(reg):
+    L = 'spec.integer.lemma_'
+    I4 = {'a': 'int', 'b': 'int', 'c': 'int', 'd': 'int'}
+    # positional notation: a digit below B in front of a tail below P gives a number below B*P ...
+    reg.add(Contract(L + 'radix_lt', params=dict(I4), requires=['0 <= a', 'a < d', '0 <= b', 'b < c'],
+                     ensures={'lt': 'a * c + b < d * c', 'ge': 'a * c + b >= 0'}, result='bool', returns='True', modifies=[]))
+    # ... and a digit >= H gives a number >= H*P
+    reg.add(Contract(L + 'radix_ge', params=dict(I4), requires=['a >= d', 'b >= 0', 'c >= 0'],
+                     ensures={'ge': 'a * c + b >= d * c'}, result='bool', returns='True', modifies=[]))
+    return reg
+
+
+LEMMA_TARGETS = ['spec.integer.lemma_radix_lt', 'spec.integer.lemma_radix_ge']
+
+
+def lemma_units(prop, prefix, registry):
+    from vf.pyunit import pyvc_unit
+    return [pyvc_unit(prop, prefix + 'lemmas', registry, list(LEMMA_TARGETS))]
 
 
 # ---------------------------------------------------------------- entry-state builders
